@@ -4,7 +4,7 @@
    control::SpaceInformation::propagateWhileValid over an integer integrator, every step count in
    -8..8 x every validity pattern x alloc / capacity, against the documented contract (count =
    leading valid steps, result = state after that many steps, overloads agree, nothing leaks);
-   thorough tier: -10..10.
+   thorough tier: -9..9.
 2. Every case TLC enumerated is printed with the expectation the CONTRACT computes and replayed on
    the real SpaceInformation (integer propagator on R^1, counting state space, 3 embeddings).
 3. Control planners (RRT with / without intermediate states, SST, EST, KPIECE1, PDST, SyclopRRT,
@@ -52,7 +52,7 @@ def _propagation_part(ck, binary, n):
     caps = list(range(0, n + 2))
     cases = []
     res = run_tlc("control/Propagate", cfg=_cfg("mc-%d" % n, n, caps, False), workers=vlib.NCPU,
-                  timeout=1500, json_sink=cases.append)
+                  timeout=6 * 3600, json_sink=cases.append)
     ck.tlc(res, "propagate-mc-N%d" % n)
     if res.violated:
         # the transcription breaks the contract: a design-level finding; the verdict on the code
@@ -64,14 +64,14 @@ def _propagation_part(ck, binary, n):
         raise FrameworkError("Propagate.tla emitted %d cases, expected %d" % (len(cases), expect))
     ck.set("propagate_cases", len(cases))
     # aliasing (result == state) is explored for the record only: no caller in the library does it
-    ares = run_tlc("control/Propagate", cfg=_cfg("alias", min(n, 4), [0, 2], True), workers=1, timeout=600,
+    ares = run_tlc("control/Propagate", cfg=_cfg("alias", min(n, 4), [0, 2], True), workers=1, timeout=6 * 3600,
                    collect_json=False)
     if ares.error:
         raise FrameworkError(ares.error)
     ck.set("alias_model_result", ares.violated or "no violation")
-    cpath = os.path.join(WORK, "c02-cases-N%d.ndjson" % n)
+    cpath = os.path.join(WORK, "c02-cases-N%d-%d.ndjson" % (n, os.getpid()))
     vlib.write_ndjson(cpath, cases)
-    rc, out, err = run_cmd([binary, "replay-propagate", cpath], timeout=1500)
+    rc, out, err = run_cmd([binary, "replay-propagate", cpath], timeout=6 * 3600)
     summ = _parse(out, "SUMMARY")
     if not summ:
         if "CRASH" in out or rc in (70, 77, 78) or rc < 0:
@@ -100,6 +100,7 @@ def _propagation_part(ck, binary, n):
                      "first: steps=%s valid=%s alloc=%s cap=%s embedding=%s: %s"
                      % (cnt, summ["scenarios"], kind, f.get("case", {}).get("steps"), f.get("case", {}).get("valid"),
                         f.get("case", {}).get("alloc"), f.get("case", {}).get("cap"), f.get("embedding"), f.get("why")), rp)
+    os.unlink(cpath)
     if not summ["kinds"]:
         ck.sample({"kind": "replayed propagation cases", "cases": summ["cases"], "embeddings": 3,
                    "shapes": summ["coverage"]})
@@ -139,7 +140,7 @@ def _matrix(tier, base_seed):
     """Deterministic list of run lines (see harness/control.cpp for the format)."""
     rng = random.Random(base_seed * 7919 + 17)
     layouts = list(LAYOUTS)
-    nrand = 6 if tier == "quick" else 30
+    nrand = 6 if tier == "quick" else 20
     for i in range(nrand):
         k = rng.randint(2, 6)
         cells = rng.sample(range(16), k)
@@ -148,7 +149,7 @@ def _matrix(tier, base_seed):
         g = rng.choice(range(16)) if rng.random() < 0.15 else rng.choice(free)
         layouts.append(("rand%d" % i, cells, s, g, rng.choice(["normal", "normal", "normal", "tiny"])))
     budgets = [0, 4, 120, 1500, 6000] + ([] if tier == "quick" else [20000])
-    nseeds = 1 if tier == "quick" else 3
+    nseeds = 1 if tier == "quick" else 2
     rows = []
     for planner in PLANNERS:
         for system, steps in SYSTEMS.items():
@@ -157,10 +158,6 @@ def _matrix(tier, base_seed):
                     for step in steps:
                         for dcs in ((1, 3) if planner in DIRECTED else (1,)):
                             for budget in budgets:
-                                if g in cells and planner.startswith("Syclop"):
-                                    # PlannerInputStates::nextGoal(ptc) sleeps between attempts while the goal
-                                    # yields no valid sample: keep the (wall-clock) cost of INVALID_GOAL small
-                                    budget = min(budget, 40)
                                 for k in range(nseeds):
                                     rows.append((planner, system, name, _mask(cells), s, g, thr, mn, mx, step, dcs, budget, k))
     if tier == "quick":
@@ -170,7 +167,7 @@ def _matrix(tier, base_seed):
             by.setdefault((r[0], r[1], r[2]), []).append(r)
         rows = []
         for key in sorted(by):
-            rows += rng.sample(by[key], 5)
+            rows += rng.sample(by[key], 10)
     lines = []
     for i, r in enumerate(rows):
         seed = (base_seed * 1000003 + i * 31 + r[12] * 7) % 1000000000 + 1
@@ -180,12 +177,12 @@ def _matrix(tier, base_seed):
 
 def _record_shard(args):
     binary, spec_path, out_path = args
-    rc, out, err = run_cmd([binary, "record", out_path, spec_path], timeout=3000)
+    rc, out, err = run_cmd([binary, "record", out_path, spec_path], timeout=6 * 3600)
     return rc, out[-2000:], err[-2000:]
 
 
 def _validate(path):
-    acc, prefix, res = validate_trace(TRACE_SPEC, path, timeout=3000)
+    acc, prefix, res = validate_trace(TRACE_SPEC, path, timeout=6 * 3600)
     seen, verdicts = set(), []
     for v in res.json:
         if v.get("verdict") == "rejected" and v["line"] not in seen:
@@ -226,12 +223,21 @@ def _selftest_rows(good):
     return rows, expect
 
 
+def _usable_for_gate(e):
+    """An accepted exact report whose start and goal cells are far apart (so that walling them off
+    makes the goal unreachable) serves as the seed of the corrupted copies."""
+    return (e.get("e") == "SolveReport" and e["status"] == "EXACT_SOLUTION" and len(e["paths"]) == 1
+            and not e["paths"][0]["approx"] and e["thr"] == "normal" and len(e["paths"][0]["cells"]) >= 3
+            and max(abs(e["startCell"] % 4 - e["goalCell"] % 4), abs(e["startCell"] // 4 - e["goalCell"] // 4)) >= 2)
+
+
 def _binding_gate(ck, good):
     """The trace spec must reject each hand-corrupted copy of an accepted report, naming the clause."""
     rows, expect = _selftest_rows(good)
-    p = os.path.join(WORK, "c02-selftest.ndjson")
+    p = os.path.join(WORK, "c02-selftest-%d.ndjson" % os.getpid())
     vlib.write_ndjson(p, rows)
     acc, prefix, violated, verdicts, wall = _validate(p)
+    os.unlink(p)
     got = {v["line"] - 2: set(v["failed"]) for v in verdicts}
     missed = [expect[i] for i in range(len(expect)) if expect[i] not in got.get(i, set())]
     if acc or missed:
@@ -241,9 +247,7 @@ def _binding_gate(ck, good):
 
 def _planner_part(ck, binary, tier):
     lines = _matrix(tier, vlib.seed())
-    d = vlib.ensure_dir(os.path.join(WORK, "c02-runs"))
-    for f in os.listdir(d):
-        os.unlink(os.path.join(d, f))
+    d = vlib.ensure_dir(os.path.join(WORK, "c02-runs-%s-%d" % (tier, os.getpid())))   # private to this invocation
     nshard = min(vlib.NCPU, 16)
     shards = []
     for s in range(nshard):
@@ -260,9 +264,13 @@ def _planner_part(ck, binary, tier):
             done = sum(1 for e in evs if e.get("e") == "SolveReport")
             spec_lines = open(sp).read().splitlines()
             culprit = spec_lines[done] if done < len(spec_lines) else "?"
-            rp = ck.replay_file("crash-run.txt", culprit + "\n")
-            ck.violation("crash:" + (culprit.split()[1] if culprit != "?" else "record"),
-                         "planner run crashed / harness aborted (rc=%s) on run: %s; %s" % (rc, culprit, (err or out)[-500:]), rp)
+            what = next((e.get("what", "") for e in reversed(evs) if e.get("e") == "Crash"), "")
+            kind = "hang" if "watchdog" in what else "crash"
+            name = culprit.split()[1] if culprit != "?" else "record"
+            rp = ck.replay_file("%s-run-%s.txt" % (kind, name), culprit + "\n")
+            ck.violation("%s:%s" % (kind, name), "planner run %s (rc=%s, %s) on run: %s; %s"
+                         % ("exceeded its CPU-time watchdog" if kind == "hang" else "crashed / harness aborted",
+                            rc, what, culprit, (err or out)[-500:]), rp)
     # concatenate the shards into a few logs (one JVM start each)
     ngroups = 1 if tier == "quick" else 8
     traces = []
@@ -277,6 +285,7 @@ def _planner_part(ck, binary, tier):
         vres = list(ex.map(_validate, traces))
     stats = {}
     events = {}
+    rejected_runs = set()
     good = None
     nrej = 0
     for tp, (acc, prefix, violated, verdicts, wall) in zip(traces, vres):
@@ -297,6 +306,7 @@ def _planner_part(ck, binary, tier):
         for v in verdicts:
             nrej += 1
             e = evs[v["line"] - 1]
+            rejected_runs.add(e["run"])
             for clause in sorted(v["failed"]):
                 key = "report:%s:%s" % (e["planner"], clause)
                 st = stats.setdefault(key, {"n": 0, "first": e})
@@ -323,7 +333,7 @@ def _planner_part(ck, binary, tier):
         p = per.setdefault(e["planner"], {"runs": 0, "EXACT_SOLUTION": 0, "APPROXIMATE_SOLUTION": 0, "TIMEOUT": 0,
                                           "INVALID_START": 0, "INVALID_GOAL": 0, "other": 0, "exactPaths": 0,
                                           "approxPaths": 0, "pathSteps": 0, "dursOutOfRange": 0, "zeroDurations": 0,
-                                          "libCheckDisagree": 0})
+                                          "libCheckDisagree": 0, "statesOutstandingAfterClearAndDestroy": 0})
         p["runs"] += 1
         p[e["status"] if e["status"] in p else "other"] += 1
         for q in e["paths"]:
@@ -332,16 +342,15 @@ def _planner_part(ck, binary, tier):
             p["dursOutOfRange"] += 0 if q["dursInRange"] else 1
             p["zeroDurations"] += q["zeroDurations"]
         p["libCheckDisagree"] += e["libCheckDisagree"]
-        if good is None and e["status"] == "EXACT_SOLUTION" and e["paths"] and not e["paths"][0]["approx"] \
-                and e["thr"] == "normal" and len(e["paths"][0]["cells"]) >= 3 and e["run"] not in \
-                {ev["run"] for st in stats.values() for ev in [st["first"]]}:
+        p["statesOutstandingAfterClearAndDestroy"] += e["statesLeakedBeforeTeardown"]   # C03's subject; recorded only
+        if good is None and _usable_for_gate(e) and e["run"] not in rejected_runs:
             good = e
     ck.set("per_planner", per)
     ck.set("reports_rejected", nrej)
     ck.set("evaluations", len(events))
     ck.set("distinct_nontrivial", len({(e["planner"], e["system"], e["layout"], e["status"]) for e in events.values()}))
     ck.set("rule", "planner x system x layout x duration range x step size x directed-sampler k x budget x seed matrix"
-                   + (", seeded stratified sample (5 per planner x system x layout)" if tier == "quick" else ", full"))
+                   + (", seeded stratified sample (10 per planner x system x layout)" if tier == "quick" else ", full"))
     missing = []
     for pl in PLANNERS:
         p = per.get(pl, {})
@@ -353,15 +362,22 @@ def _planner_part(ck, binary, tier):
             missing.append(pl + ":TIMEOUT")
     if not any(per.get(pl, {}).get("INVALID_GOAL") for pl in ("SyclopRRT", "SyclopEST")):
         missing.append("Syclop:INVALID_GOAL")
-    if missing:
+    # (a tree that already violates the contract may legitimately lack some outcomes: the
+    #  violations are the result then, not a framework error)
+    if missing and not ck.violations:
         raise FrameworkError("vacuity gate: outcomes never observed: %s" % missing)
-    if good is None:
+    if good is None and not ck.violations:
         raise FrameworkError("no accepted exact report available for the binding gate")
-    _binding_gate(ck, good)
-    ck.sample({"kind": "accepted SolveReport", "report": {k: good[k] for k in
-               ("planner", "system", "layout", "status", "nAdded", "budget", "seed")},
-               "path": {k: good["paths"][0][k] for k in ("approx", "nStates", "steps", "replayMatches", "allStepsValid",
-                                                          "controlsInBounds", "durationsWholeSteps", "lastInGoal", "cells")}})
+    if good is not None:
+        _binding_gate(ck, good)
+    shutil.copyfile(traces[0], os.path.join(WORK, "c02-last-trace.ndjson"))    # kept for --selftest / inspection
+    shutil.rmtree(d, ignore_errors=True)
+    if good is not None:
+        ck.sample({"kind": "accepted SolveReport",
+                   "report": {k: good[k] for k in ("planner", "system", "layout", "status", "nAdded", "budget", "seed")},
+                   "path": {k: good["paths"][0][k] for k in ("approx", "nStates", "steps", "replayMatches",
+                                                             "allStepsValid", "controlsInBounds", "durationsWholeSteps",
+                                                             "lastInGoal", "cells")}})
 
 
 def run(tier):
@@ -381,7 +397,7 @@ def run(tier):
     import time
     t0 = time.time()
     binary = build_harness("control", needs_lib=True)
-    _propagation_part(ck, binary, 8 if tier == "quick" else 10)
+    _propagation_part(ck, binary, 8 if tier == "quick" else 9)
     t1 = time.time()
     _planner_part(ck, binary, tier)
     ck.set("phase_wall_s", {"build+propagation": round(t1 - t0, 1), "planners": round(time.time() - t1, 1)})
@@ -393,7 +409,7 @@ def replay(path):
     binary = build_harness("control", needs_lib=True)
     if path.endswith(".txt"):
         out = os.path.join(WORK, "c02-replay-trace.ndjson")
-        rc, so, se = run_cmd([binary, "record", out, path], timeout=3000)
+        rc, so, se = run_cmd([binary, "record", out, path], timeout=6 * 3600)
         print(so[-1500:], se[-1500:])
         acc, prefix, violated, verdicts, wall = _validate(out)
         for e in vlib.read_ndjson(out):
@@ -416,12 +432,11 @@ def replay(path):
 
 def selftest():
     """Binding demonstration without a build: corrupt fields of a recorded report, expect rejections."""
-    d = os.path.join(WORK, "c02-runs")
-    for f in sorted(os.listdir(d)) if os.path.isdir(d) else []:
-        if f.startswith("trace-"):
-            for e in vlib.read_ndjson(os.path.join(d, f)):
-                if e.get("e") == "SolveReport" and e["status"] == "EXACT_SOLUTION" and e["paths"] and \
-                        not e["paths"][0]["approx"] and e["thr"] == "normal" and len(e["paths"][0]["cells"]) >= 3:
+    last = os.path.join(WORK, "c02-last-trace.ndjson")
+    for f in [last] if os.path.exists(last) else []:
+        if True:
+            for e in vlib.read_ndjson(f):
+                if _usable_for_gate(e):
                     rows, expect = _selftest_rows(e)
                     p = os.path.join(WORK, "c02-selftest.ndjson")
                     vlib.write_ndjson(p, rows)
